@@ -24,6 +24,10 @@ package main
 //	    claimed only below 300 substitutions per tag (the library's bound is 1000 replacements);
 //	(c) a result without error contains no `${…}` match;
 //	(d) end to end: Run binds the same string (only for "plain" results), or fails when the direct call fails.
+//
+// Histories (scenario `H …`, see the section "histories" below): tags are resolved, paths of the configuration are changed
+// with Configure.Set, the same tags are resolved again on fresh properties; the second resolution is judged like a first
+// one under the CURRENT configuration (placeholder-set-stale / placeholder-set-current).
 
 import (
 	"fmt"
@@ -516,6 +520,7 @@ func phParseSeq(s string, inside bool, depth int) (ns []*phNode, rest string, ok
 // phEv: the harness's own substitution (never the library's code, never the model).
 type phEv struct {
 	root           *cval
+	look           func(key string) (*cval, bool) // nil = phLookup(root, key); histories: the current view (phCurView.lookup)
 	emptyNoDefault bool     // an empty map / list without default was substituted
 	indirect       bool     // a replacement carried placeholders itself and was substituted in turn
 	steps          int      // placeholders substituted so far (= look-ups the library needs)
@@ -555,7 +560,13 @@ func (e *phEv) eval(ns []*phNode) (string, bool) {
 		if i := strings.IndexByte(content, ':'); i >= 0 {
 			key, def = content[:i], content[i+1:]
 		}
-		v, exact := phLookup(root, key)
+		var v *cval
+		var exact bool
+		if e.look != nil {
+			v, exact = e.look(key)
+		} else {
+			v, exact = phLookup(root, key)
+		}
 		if !exact {
 			return "", false
 		}
@@ -707,6 +718,10 @@ func runPh(c phCase, w *hx.Writer) {
 func phReplay(scn string, w *hx.Writer) {
 	scn = strings.TrimPrefix(scn, "# ")
 	f := strings.Fields(scn)
+	if len(f) > 0 && f[0] == "H" {
+		phHistReplay(f, w)
+		return
+	}
 	if len(f) < 2 {
 		return
 	}
@@ -749,6 +764,7 @@ func phCfgOf(kv ...any) *cval {
 }
 
 func phCorpus(w *hx.Writer) {
+	defer phHistCorpus(w)
 	list := &cval{kind: 'l', xs: []*cval{cNum("1"), cStr("x"), {kind: 'b', b: true}}}
 	base := func() *cval {
 		return phCfgOf("a", 1, "s", "str", "f", cNum("1.5"), "t", true, "n", nil, "e", cMap(), "el", &cval{kind: 'l'},
@@ -1423,4 +1439,551 @@ func phGen(rng *hx.Rng, n int, tier string, w *hx.Writer) {
 	}
 	// after the main stream (whose cases stay what they were): values that carry placeholders, reached several times
 	phGenIndirect(rng.Fork(), (n+5)/6, w)
+	// … and histories: tags resolved, paths changed with Set, the same tags resolved again
+	phGenHist(rng.Fork(), (n+11)/12, w)
+}
+
+// ---------------------------------------------------------------- histories
+//
+//	scenario     `H <k> <TagStr-hex>×k <j> (P<path-hex> <value>)×j <cfg>`     values and cfg in the prefix form of the other scenarios
+//	observation  `<first>×k / <second>×k`, each `<TagVal-hex>` | `err` | `panic` | `hang`
+//
+// One Configure (ViperBinder loaded from the YAML document).  Every tag is resolved by the real processor on a real, fresh
+// property; then Configure.Set(path, value) for the j operations in order; then every tag is resolved AGAIN on a fresh
+// property by a fresh processor.  A tenth of the histories is also run end to end: an App starts with a holder whose
+// fields carry the tags, app.Set, then a second App that shares the Configure (app.SetConfigure, no loaders) starts with a
+// second holder carrying the same tags.
+//
+// Oracles: (a) and (c) on both resolutions; (b) on the first resolution as for any tag; on the second resolution the
+// harness substitutes under ITS OWN account of the current configuration: the document, and the values handed to Set
+// composed in order.  It answers for a key only when no Set is at, above or below the key's path (the document's value) or
+// a Set at or above the path gave it a value (that value, with what was set below it later); for any other key — one
+// that lies beside a path that was set and is reached through a section created by Set, or whose section was replaced by a
+// map that does not mention it — the oracle abstains: what the binder answers there depends on how it layers its sources.
+// A second result that differs from the substitution: placeholder-set-stale when it is what the FIRST resolution gave,
+// placeholder-set-current otherwise.
+
+type phOp struct {
+	path string
+	val  *cval
+}
+
+type phHist struct {
+	tags  []string
+	nodes [][]*phNode // per tag; nil = not from the grammar
+	ops   []phOp
+	cfg   *cval
+	lbl   []string
+	e2e   bool
+}
+
+func (c *cval) lowerKeys() *cval {
+	if c.kind != 'm' {
+		return c
+	}
+	out := cMap()
+	for i, k := range c.ks {
+		out.put(strings.ToLower(k), c.xs[i].lowerKeys())
+	}
+	return out
+}
+
+// phCurView: the harness's own account of the configuration after the Set calls.
+type phCurView struct {
+	doc *cval
+	set *cval
+	ops [][]string
+}
+
+func phNewCurView(doc *cval, ops []phOp) *phCurView {
+	cv := &phCurView{doc: doc, set: cMap()}
+	for _, o := range ops {
+		path := strings.Split(strings.ToLower(o.path), ".")
+		cv.ops = append(cv.ops, path)
+		cur := cv.set
+		for _, seg := range path[:len(path)-1] {
+			next := cur.child(seg)
+			if next == nil || next.kind != 'm' {
+				next = cMap()
+				cur.put(seg, next)
+			}
+			cur = next
+		}
+		cur.put(path[len(path)-1], o.val.lowerKeys())
+	}
+	return cv
+}
+
+func phIsPrefix(p, q []string) bool {
+	if len(p) > len(q) {
+		return false
+	}
+	for i := range p {
+		if p[i] != q[i] {
+			return false
+		}
+	}
+	return true
+}
+
+func (cv *phCurView) lookup(key string) (*cval, bool) {
+	if key == "" {
+		return nil, false
+	}
+	path := strings.Split(strings.ToLower(key), ".")
+	comparable, above := false, false
+	for _, op := range cv.ops {
+		if phIsPrefix(op, path) {
+			comparable, above = true, true
+		} else if phIsPrefix(path, op) {
+			comparable = true
+		}
+	}
+	if !comparable {
+		return phLookup(cv.doc, key)
+	}
+	if above {
+		cur := cv.set
+		for _, seg := range path {
+			if cur == nil || cur.kind != 'm' {
+				return nil, false
+			}
+			cur = cur.child(seg)
+		}
+		if cur != nil && cur.kind != 'z' {
+			return cur, true
+		}
+	}
+	return nil, false
+}
+
+func phHistScn(h *phHist) string {
+	toks := []string{"H", strconv.Itoa(len(h.tags))}
+	for _, t := range h.tags {
+		toks = append(toks, hx.Hex(t))
+	}
+	toks = append(toks, strconv.Itoa(len(h.ops)))
+	for _, o := range h.ops {
+		toks = append(toks, hexTok("P", o.path))
+		o.val.tokens(&toks)
+	}
+	h.cfg.tokens(&toks)
+	return strings.Join(toks, " ")
+}
+
+// phHistEndToEnd: two Apps sharing one Configure; returns the strings bound by the second holder (nil = not run / failed)
+func phHistEndToEnd(yamlBytes []byte, h *phHist) (second []string, failed bool, pan any, ran bool) {
+	var fs []reflect.StructField
+	for i, t := range h.tags {
+		tag := reflect.StructTag("value:" + strconv.Quote(t+",required=false"))
+		if got, ok := tag.Lookup("value"); !ok || got != t+",required=false" {
+			return nil, false, nil, false
+		}
+		fs = append(fs, reflect.StructField{Name: "V" + strconv.Itoa(i), Type: reflect.TypeOf(""), Tag: tag})
+	}
+	first := reflect.New(reflect.StructOf(fs))
+	for i := range fs {
+		fs[i].Name = "W" + strconv.Itoa(i)
+	}
+	late := reflect.New(reflect.StructOf(fs))
+	var err1, err2 error
+	pan, hung := phWatch(func() {
+		a := app.NewApp()
+		err1 = a.Run(app.LogLevel(syslog.LvPanic), app.SetConfigLoader(loader.NewRawLoader(yamlBytes)), app.SetComponents(first.Interface()))
+		if err1 != nil {
+			return
+		}
+		for _, o := range h.ops {
+			a.Set(o.path, o.val.toAny())
+		}
+		err2 = app.NewApp().Run(app.LogLevel(syslog.LvPanic), app.SetConfigure(a.Configure), app.SetConfigLoader(), app.SetComponents(late.Interface()))
+	})
+	if hung {
+		return nil, false, "hang", true
+	}
+	if pan != nil {
+		return nil, false, pan, true
+	}
+	if err1 != nil {
+		return nil, false, nil, false // the first start fails (a tag that does not resolve): nothing to compare
+	}
+	if err2 != nil {
+		return nil, true, nil, true
+	}
+	for i := range h.tags {
+		second = append(second, late.Elem().Field(i).String())
+	}
+	return second, false, nil, true
+}
+
+func runPhHist(h *phHist, w *hx.Writer) {
+	if phHung {
+		return
+	}
+	phQuiet.Do(func() { syslog.Level(syslog.LvPanic) })
+	yamlBytes, err := yaml.Marshal(h.cfg.toAny())
+	if err != nil || len(h.cfg.xs) == 0 {
+		yamlBytes = nil
+	}
+	cfg, err := newConfigure(yamlBytes)
+	if err != nil {
+		return
+	}
+	opaque := false
+	judge := func(r phRun, tr phTrace, out *hx.Case, which string) {
+		switch r.obs {
+		case "hang":
+			phHung = true
+			if out.Oracle == "" {
+				out.Oracle = "FAIL placeholder-hang no answer within 5s (" + which + " resolution)"
+			}
+		case "panic":
+			if out.Oracle == "" {
+				msg := fmt.Sprint(r.pan)
+				switch {
+				case tr.loneQuote && strings.Contains(msg, "slice bounds out of range [1:0]"):
+					out.Oracle = "FAIL placeholder-panic-lone-quote " + msg
+				case tr.getPanic && strings.Contains(msg, "index out of range [-"):
+					out.Oracle = "FAIL placeholder-panic-negative-index " + msg
+				default:
+					out.Oracle = "FAIL placeholder-panic " + msg + " (" + which + " resolution)"
+				}
+			}
+		case "err":
+		default:
+			if phQuote.MatchString(r.val) && out.Oracle == "" {
+				out.Oracle = fmt.Sprintf("FAIL placeholder-left %s result %q still has a placeholder", which, r.val)
+			}
+		}
+	}
+	out := hx.Case{Tags: append([]string{"history"}, h.lbl...)}
+	var firsts, seconds []phRun
+	for _, t := range h.tags {
+		r := phDirect(cfg, t, true)
+		tr := phRefTrace(cfg, t)
+		opaque = opaque || tr.opaque
+		firsts = append(firsts, r)
+		judge(r, tr, &out, "first")
+		if phHung {
+			break
+		}
+	}
+	if !phHung {
+		pan := hx.Guard(func() {
+			for _, o := range h.ops {
+				cfg.Set(o.path, o.val.toAny())
+			}
+		})
+		if pan != nil && out.Oracle == "" {
+			out.Oracle = "FAIL placeholder-panic Set panicked: " + fmt.Sprint(pan)
+		}
+		for _, t := range h.tags {
+			r := phDirect(cfg, t, true)
+			tr := phRefTrace(cfg, t)
+			opaque = opaque || tr.opaque
+			seconds = append(seconds, r)
+			judge(r, tr, &out, "second")
+			if phHung {
+				break
+			}
+		}
+	}
+	var obs []string
+	for _, r := range firsts {
+		obs = append(obs, r.obs)
+	}
+	obs = append(obs, "/")
+	for _, r := range seconds {
+		obs = append(obs, r.obs)
+	}
+	out.Scn, out.Obs = phHistScn(h), strings.Join(obs, " ")
+	if opaque {
+		out.Scn = "# " + out.Scn
+		out.Tags = append(out.Tags, "opaque")
+	}
+	// the substitution oracle: first resolution under the document, second under the current view
+	cur := phNewCurView(h.cfg, h.ops)
+	judged := false
+	for i := range h.tags {
+		if out.Oracle != "" || i >= len(seconds) || h.nodes[i] == nil {
+			continue
+		}
+		ev1 := &phEv{root: h.cfg}
+		if want, ok := ev1.eval(h.nodes[i]); ok && firsts[i].obs != hx.Hex(want) {
+			out.Oracle = fmt.Sprintf("FAIL placeholder-eval tag %q gives %q (obs %s), substitution gives %q", h.tags[i], firsts[i].val, firsts[i].obs, want)
+			continue
+		}
+		ev2 := &phEv{root: h.cfg, look: cur.lookup}
+		if want, ok := ev2.eval(h.nodes[i]); ok {
+			judged = true
+			if seconds[i].obs != hx.Hex(want) {
+				sig := "placeholder-set-current"
+				if seconds[i].obs == firsts[i].obs {
+					sig = "placeholder-set-stale"
+				}
+				out.Oracle = fmt.Sprintf("FAIL %s tag %q resolved again after Set gives %q (obs %s; first %q), substitution under the current configuration gives %q",
+					sig, h.tags[i], seconds[i].val, seconds[i].obs, firsts[i].val, want)
+			}
+		}
+	}
+	if judged {
+		out.Tags = append(out.Tags, "eval-oracle")
+	}
+	if h.e2e && out.Oracle == "" && !opaque && len(seconds) == len(h.tags) {
+		plain := true
+		for _, t := range h.tags {
+			if strings.Contains(t, ",") {
+				plain = false // the part behind a top-level comma would be read as tag arguments
+			}
+		}
+		for _, r := range seconds {
+			if r.obs == "panic" || r.obs == "hang" || (r.obs != "err" && r.val != "" && !phPlain(r.val)) {
+				plain = false
+			}
+		}
+		for _, r := range firsts {
+			if r.obs == "panic" || r.obs == "hang" || (r.obs != "err" && r.val != "" && !phPlain(r.val)) {
+				plain = false
+			}
+		}
+		if plain {
+			got, failed, pan, ran := phHistEndToEnd(yamlBytes, h)
+			if ran {
+				out.Tags = append(out.Tags, "e2e")
+				anyErr := false
+				for _, r := range seconds {
+					anyErr = anyErr || r.obs == "err"
+				}
+				switch {
+				case pan != nil:
+					out.Oracle = fmt.Sprintf("FAIL placeholder-e2e Run panicked or hung: %v", pan)
+				case anyErr != failed:
+					out.Oracle = fmt.Sprintf("FAIL placeholder-e2e second start failed=%v, direct resolution failed=%v", failed, anyErr)
+				case !failed:
+					for i, r := range seconds {
+						if got[i] != r.val {
+							out.Oracle = fmt.Sprintf("FAIL placeholder-e2e tag %q: direct %q after Set, the second App bound %q", h.tags[i], r.val, got[i])
+							break
+						}
+					}
+				}
+			}
+		}
+	}
+	w.Put(out)
+}
+
+func phHistReplay(f []string, w *hx.Writer) {
+	i := 1
+	num := func() (int, bool) {
+		if i >= len(f) {
+			return 0, false
+		}
+		n, err := strconv.Atoi(f[i])
+		i++
+		return n, err == nil && n >= 0 && n < 1000
+	}
+	h := &phHist{lbl: []string{"replay"}}
+	k, ok := num()
+	if !ok {
+		return
+	}
+	for ; k > 0; k-- {
+		if i >= len(f) {
+			return
+		}
+		t, err := hx.UnHex(f[i])
+		if err != nil {
+			return
+		}
+		i++
+		h.tags = append(h.tags, t)
+		nodes, ok := phParse(t)
+		if !ok {
+			nodes = nil
+		}
+		h.nodes = append(h.nodes, nodes)
+	}
+	j, ok := num()
+	if !ok {
+		return
+	}
+	for ; j > 0; j-- {
+		if i >= len(f) || f[i][0] != 'P' {
+			return
+		}
+		path := ""
+		if len(f[i]) > 1 {
+			p, err := hx.UnHex(f[i][1:])
+			if err != nil {
+				return
+			}
+			path = p
+		}
+		v, rest, ok := parseCfgTokens(f[i+1:])
+		if !ok {
+			return
+		}
+		h.ops = append(h.ops, phOp{path, v})
+		i = len(f) - len(rest)
+	}
+	cfg, rest, ok := parseCfgTokens(f[i:])
+	if !ok || len(rest) != 0 || cfg.kind != 'm' {
+		return
+	}
+	h.cfg = cfg
+	runPhHist(h, w)
+}
+
+func phHistOf(cfg *cval, ops []phOp, lbl []string, tags ...string) *phHist {
+	h := &phHist{cfg: cfg, ops: ops, lbl: lbl}
+	for _, t := range tags {
+		nodes, ok := phParse(t)
+		if !ok {
+			nodes = nil
+		}
+		h.tags = append(h.tags, t)
+		h.nodes = append(h.nodes, nodes)
+	}
+	return h
+}
+
+func phHistCorpus(w *hx.Writer) {
+	svc := func() *cval {
+		return phCfgOf("svc", phCfgOf("url", "http://old.example", "name", "billing"), "db", phCfgOf("host", "primary", "port", 5432, "pool", phCfgOf("size", 3)),
+			"l", &cval{kind: 'l', xs: []*cval{cNum("1"), cStr("x")}}, "base", "${svc.url}/v1", "top", "plain")
+	}
+	lbl := []string{"corpus"}
+	tags := []string{"${svc.url}", "${svc.name}", "${cache.ttl:30}", "${svc.url}/${svc.name}?ttl=${cache.ttl:30}", "${base}", "${SVC.URL}", "${db.host}:${db.port}", "${db.pool.size}", "${top}"}
+	for _, ops := range [][]phOp{
+		nil,
+		{{"svc", phCfgOf("url", "http://new.example", "name", "billing")}, {"cache", phCfgOf("ttl", 60)}},
+		{{"SVC.URL", cStr("http://new.example")}, {"cache.ttl", cNum("60")}},
+		{{"svc.url", cStr("http://new.example")}},
+		{{"Svc", phCfgOf("URL", "http://new.example")}},
+		{{"db.pool", phCfgOf("size", 9)}, {"db.host", cStr("replica")}},
+		{{"db", phCfgOf("host", "replica", "port", 6543, "pool", phCfgOf("size", 4))}, {"db.pool.size", cNum("5")}},
+		{{"db.pool.size", cNum("5")}, {"db", phCfgOf("host", "replica")}},
+		{{"db.host", cStr("replica")}, {"db.host", cStr("third")}, {"top", cStr("changed")}},
+		{{"db", cStr("scalar")}},              // a scalar where the section was: the keys below it are gone
+		{{"top.sub", cStr("x")}},               // a section where the scalar was
+		{{"l.0", cStr("zero")}},                // a path into a list
+		{{"svc.url", &cval{kind: 'z'}}},        // nil: nothing changes
+		{{"cache", cMap()}, {"svc.name", cStr("")}},
+	} {
+		h := phHistOf(svc(), ops, lbl, tags...)
+		h.e2e = true
+		runPhHist(h, w)
+	}
+	runPhHist(phHistOf(svc(), []phOp{{"db.host", cStr("replica")}}, lbl, "${}", "${db}", "${l}", "${l.0}", "${db.pool}"), w)
+	runPhHist(phHistOf(svc(), []phOp{{"l.0", cStr("zero")}, {"svc.url.x", cNum("1")}}, lbl, "${l}", "${l.0}", "${l.1}", "${svc.url}", "${svc.url.x}", "${svc}"), w)
+}
+
+// ---- generators of histories
+
+func phVaryScalar(r *hx.Rng, old *cval) *cval {
+	for try := 0; try < 8; try++ {
+		var v *cval
+		switch r.Intn(4) {
+		case 0:
+			v = cNum(phNumText(r))
+		case 1:
+			v = &cval{kind: 'b', b: r.Bool()}
+		default:
+			v = cStr(phAtom(r, 5))
+		}
+		if old == nil || v.kind != old.kind || v.s != old.s || v.b != old.b {
+			return v
+		}
+	}
+	return cStr("changed")
+}
+
+func phCasing(r *hx.Rng, path string) string {
+	switch r.Intn(5) {
+	case 0:
+		return strings.ToUpper(path)
+	case 1:
+		segs := strings.Split(path, ".")
+		i := r.Intn(len(segs))
+		segs[i] = strings.ToUpper(segs[i])
+		return strings.Join(segs, ".")
+	}
+	return path
+}
+
+// phOpsNear: Set operations at, above and below the given path (a key some tag looks up), and on absent keys
+func phOpsNear(r *hx.Rng, root *cval, path string) []phOp {
+	segs := strings.Split(strings.ToLower(path), ".")
+	cur, _ := phLookup(root, path)
+	var ops []phOp
+	switch k := r.Intn(10); {
+	case k < 3 || len(segs) == 1 && k < 6: // the path itself, in some letter case
+		ops = append(ops, phOp{phCasing(r, path), phVaryScalar(r, cur)})
+	case k < 6: // an ancestor is replaced by a map that holds the rest of the path
+		cut := 1 + r.Intn(len(segs)-1)
+		v := phVaryScalar(r, cur)
+		for i := len(segs) - 1; i >= cut; i-- {
+			m := cMap()
+			key := segs[i]
+			if r.P(1, 4) {
+				key = strings.ToUpper(key)
+			}
+			m.put(key, v)
+			if r.P(1, 3) {
+				m.put("z"+phKeyName(r), phScalar(r))
+			}
+			v = m
+		}
+		ops = append(ops, phOp{phCasing(r, strings.Join(segs[:cut], ".")), v})
+	case k < 8: // a path below it
+		ops = append(ops, phOp{phCasing(r, path) + "." + []string{"zz", "x", "0", phKeyName(r)}[r.Intn(4)], phVaryScalar(r, nil)})
+	case k < 9: // the path becomes a map / a list / empty (never nil: AllSettings — `${}` — rebuilds its answer INSIDE the maps of
+		// the override layer, in Go's map order, and a stored nil makes the outcome depend on that order)
+		ops = append(ops, phOp{phCasing(r, path), []*cval{cMap(), {kind: 'l'}, phCfgOf("x", "y"), {kind: 'l', xs: []*cval{cStr("e0")}}}[r.Intn(4)]})
+	default: // set twice
+		ops = append(ops, phOp{path, phVaryScalar(r, cur)}, phOp{phCasing(r, path), phVaryScalar(r, cur)})
+	}
+	return ops
+}
+
+func phGenHist(rng *hx.Rng, groups int, w *hx.Writer) {
+	for i := 0; i < groups; i++ {
+		r := rng.Fork()
+		if i%2 == 0 {
+			// designed in levels (leaves, keys whose values carry placeholders): leaf keys are changed, the tag and the
+			// leaves themselves are resolved before and after
+			cfg, nodes, tags, info := phIndirectCase(r)
+			h := &phHist{cfg: cfg, lbl: append(append([]string{}, tags...), "hist-indirect"), e2e: r.P(1, 10)}
+			h.tags, h.nodes = []string{phRender(nodes)}, [][]*phNode{nodes}
+			for n, k := 0, 1+r.Intn(2); n < k; n++ {
+				leaf := info.leaves[r.Intn(len(info.leaves))]
+				ref := []*phNode{{key: []*phNode{{lit: phCasing(r, leaf.name)}}}}
+				if leaf.absent || r.P(1, 3) {
+					ref[0].hasD, ref[0].def = true, []*phNode{{lit: "dflt"}}
+				}
+				h.tags, h.nodes = append(h.tags, phRender(ref)), append(h.nodes, ref)
+				h.ops = append(h.ops, phOpsNear(r, cfg, leaf.name)...)
+			}
+			runPhHist(h, w)
+			continue
+		}
+		cfg0 := phRandomCfg(r)
+		g := &phGenCtx{r: r, cfg: cfg0}
+		phPaths(cfg0, "", &g.paths)
+		h := &phHist{cfg: cfg0, lbl: []string{"hist-random"}, e2e: r.P(1, 10)}
+		for n, k := 0, 1+r.Intn(3); n < k; n++ {
+			g.nph = 0
+			nodes := g.tag()
+			h.tags, h.nodes = append(h.tags, phRender(nodes)), append(h.nodes, nodes)
+		}
+		for n, k := 0, 1+r.Intn(3); n < k; n++ {
+			path := "z" + phKeyName(r)
+			if len(g.paths) > 0 && r.P(5, 6) {
+				path = g.paths[r.Intn(len(g.paths))]
+			}
+			h.ops = append(h.ops, phOpsNear(r, cfg0, path)...)
+		}
+		runPhHist(h, w)
+	}
 }
